@@ -51,7 +51,7 @@ PACKET_PARAMS = ('pkt', 'packet', 'instance')
 PERCALL_PARAMS = ('k', 'kargs', 'kwargs', 'defaults', 'vargs', 'args_')
 MUTATORS = {'append', 'extend', 'insert', 'pop', 'remove', 'clear', 'update', 'setdefault', 'sort',
             'reverse', 'add', 'discard', 'popitem', '__setitem__', '__delitem__', 'appendleft'}
-FRESH_CALLS = {'copy.deepcopy', 'deepcopy', 'copy.copy', 'pickle.loads', 'list', 'dict', 'set', 'tuple',
+FRESH_CALLS = {'copy.deepcopy', 'deepcopy', 'pickle.loads', 'list', 'dict', 'set', 'tuple',
                'bytearray', 'sorted', 'reversed', 'zip', 'map', 'filter', 'range', 'enumerate',
                'Fragments', 'FragmentsOfRegexps', 'Prototype', 'Any', 'PacketError', 'Operations',
                'functools.partial', 'partial', 'ifilter', 're.compile', 'compile'}
@@ -186,12 +186,18 @@ class Roots:
                 if k == 'packet':
                     return 'packet', 'attribute of the packet'
                 return k, d
+            if nm in ('copy.copy', 'copy'):
+                # a shallow copy shares every nested list / packet with its source
+                k, d = self.root(e.args[0]) if e.args else ('unknown', '')
+                if k in ('immutable', 'fresh'):
+                    return k, d
+                return ('shared' if k in ('shared', 'own', 'packet') else k), 'shallow copy of %s: nested objects stay shared' % d
             if nm in FRESH_CALLS or (isinstance(f, ast.Name) and f.id in self.repo.classes):
                 return 'fresh', nm
             if nm in IMMUTABLE_CALLS:
                 return 'immutable', nm
             if isinstance(f, ast.Attribute):
-                if f.attr in ('clone', '_clone_from_pickle', '_clone_from_live_obj', 'copy', 'deepcopy'):
+                if f.attr in ('clone', '_clone_from_pickle', '_clone_from_live_obj', 'deepcopy'):
                     return 'fresh', nm or f.attr
                 if f.attr in IMMUTABLE_METHODS:
                     return 'immutable', f.attr
